@@ -157,13 +157,15 @@ class MessageAny(TlbScheme):
 
     def serialize(self) -> Cell:
         builder = Builder().store_cell(self.info.serialize())
+        # an exotic cell (library reference, Merkle proof, ...) is exotic as a cell: copied inline it would become ordinary data
+        body_inline_ok = not getattr(self.body, 'is_exotic', False)
         if self.init:
             builder.store_bit(1)  # maybe true
             init = self.init.serialize()
             bits_left = builder.available_bits - 2 - len(init.bits)
             refs_left = builder.available_refs - len(init.refs)
             # the body comes after the init: it must still fit inline, or one reference must be left for it
-            body_fits = refs_left >= 1 or (len(self.body.bits) <= bits_left and len(self.body.refs) <= refs_left)
+            body_fits = refs_left >= 1 or (body_inline_ok and len(self.body.bits) <= bits_left and len(self.body.refs) <= refs_left)
             if bits_left >= 0 and refs_left >= 0 and body_fits:
                 builder.store_bit(0)  # Either left
                 builder.store_cell(self.init.serialize())
@@ -172,7 +174,7 @@ class MessageAny(TlbScheme):
                 builder.store_ref(self.init.serialize())
         else:
             builder.store_bit(0)  # maybe false
-        if len(self.body.bits) <= (builder.available_bits - 1) and len(self.body.refs) <= builder.available_refs:
+        if body_inline_ok and len(self.body.bits) <= (builder.available_bits - 1) and len(self.body.refs) <= builder.available_refs:
             builder.store_bit(0)  # Either left
             builder.store_cell(self.body)
         else:
